@@ -48,4 +48,34 @@ def joinGroupResp (c gen : Int) (protocol leader member : String) (members : Lis
 /-- what `Conn.offsetCommit` / `Conn.offsetFetch` conclude from the per-partition codes: the first non-zero one -/
 def firstError (codes : List Int) : Int := (codes.find? (· != 0)).getD 0
 
+
+/-! ### the group REQUESTS as the legacy Conn writes them (Kafka protocol guide, the versions conn.go uses) -/
+namespace Req
+
+def wstr (b : Bytes) : Bytes := i16 b.length ++ b
+def wbytes (b : Bytes) : Bytes := i32 b.length ++ b
+
+/-- FindCoordinator v0: coordinator_key -/
+def findCoordinator (key : Bytes) : Bytes := wstr key
+/-- Heartbeat v0: group_id generation_id member_id -/
+def heartbeat (group : Bytes) (gen : Int) (member : Bytes) : Bytes := wstr group ++ i32 gen ++ wstr member
+/-- LeaveGroup v0: group_id member_id -/
+def leaveGroup (group member : Bytes) : Bytes := wstr group ++ wstr member
+/-- JoinGroup v1: group_id session_timeout rebalance_timeout member_id protocol_type [name metadata] -/
+def joinGroup (group : Bytes) (session rebalance : Int) (member ptype : Bytes) (protos : List (Bytes × Bytes)) : Bytes :=
+  wstr group ++ i32 session ++ i32 rebalance ++ wstr member ++ wstr ptype ++ arr protos (fun p => wstr p.1 ++ wbytes p.2)
+/-- SyncGroup v0: group_id generation_id member_id [member_id assignment] -/
+def syncGroup (group : Bytes) (gen : Int) (member : Bytes) (assigns : List (Bytes × Bytes)) : Bytes :=
+  wstr group ++ i32 gen ++ wstr member ++ arr assigns (fun a => wstr a.1 ++ wbytes a.2)
+/-- OffsetCommit v2: group_id generation_id member_id retention_time [topic [partition offset metadata]] -/
+def offsetCommit (group : Bytes) (gen : Int) (member : Bytes) (retention : Int)
+    (topics : List (Bytes × List (Int × Int × Bytes))) : Bytes :=
+  wstr group ++ i32 gen ++ wstr member ++ i64 retention ++
+    arr topics (fun t => wstr t.1 ++ arr t.2 (fun p => i32 p.1 ++ i64 p.2.1 ++ wstr p.2.2))
+/-- OffsetFetch v1: group_id [topic [partition]] -/
+def offsetFetch (group : Bytes) (topics : List (Bytes × List Int)) : Bytes :=
+  wstr group ++ arr topics (fun t => wstr t.1 ++ arr t.2 i32)
+
+end Req
+
 end KV.Spec.GroupWire
